@@ -138,9 +138,10 @@ structure XInv (cfg : Config) (height : Int) (ctxs : Map CtxId Ctx) (expQ newQ :
   bRunExp : ∀ c x, Map.get ctxs c = some x → x.bstate = .running → (Map.get expH c).isSome
   /-- pending requests belong to a batch that is still running -/
   activeRunning : ∀ r, r ∈ activeI → ∃ x, Map.get ctxs r.ctx = some x ∧ x.bstate = .running
-  /-- C12: pending + answered = issued, for the batch in flight -/
+  /-- pending + answered never exceeds issued, for the batch in flight (so the response that
+      brings the count to the number issued is the last pending one) -/
   counts : ∀ c x, Map.get ctxs c = some x → x.bstate = .running →
-      (activeI.filter (fun r => r.ctx = c)).length + x.respN = x.reqN
+      (activeI.filter (fun r => r.ctx = c)).length + x.respN ≤ x.reqN
 
 abbrev InvX (s : State) : Prop :=
   XInv s.cfg s.height s.ctxs s.expQ s.newQ s.expH s.newH s.usedIds s.reqs s.activeB s.activeI s.resps
@@ -168,9 +169,10 @@ abbrev InvM (s : State) : Prop :=
   MInv (balOf s.bank.bal s.cfg.escrow) s.reqs s.activeI s.earned s.ownerEarned s.owner
 
 /-- every request record names a bound provider (so a slash always finds its binding and an
-    earning always finds its owner) -/
+    earning always finds its owner), and a request of a super-mode context carries no fee -/
 def BoundInv (ctxs : Map CtxId Ctx) (reqs : Map ReqId Req) (bindings : Map (SvcName × Addr) Binding) : Prop :=
-  ∀ r q, Map.get reqs r = some q → ∃ x, Map.get ctxs r.ctx = some x ∧ (Map.get bindings (x.svc, q.prov)).isSome
+  ∀ r q, Map.get reqs r = some q → ∃ x, Map.get ctxs r.ctx = some x ∧ (Map.get bindings (x.svc, q.prov)).isSome ∧
+    (x.super = true → q.fee = 0)
 
 abbrev InvBound (s : State) : Prop := BoundInv s.ctxs s.reqs s.bindings
 
